@@ -149,7 +149,8 @@ OneHitPath(i, a) ==
     LET d == CHOOSE x \in cfg.post : TRUE
         excluded == ~cfg.exNil /\ d \in cfg.except      \* decided when the iterator is created
     IN IF i.hitDone \/ excluded THEN [i |-> [i EXCEPT !.hitDone = TRUE], doc |-> None]
-       ELSE IF (IF "OneHitLeq" \in Dev THEN d <= a ELSE d < a) THEN [i |-> [i EXCEPT !.hitDone = TRUE], doc |-> None]
+       ELSE IF (IF "OneHitLeq" \in Dev THEN d <= a ELSE d < a)
+            THEN [i |-> [i EXCEPT !.hitDone = ("AdvancePastKeepsOneHit" \notin Dev)], doc |-> None]     \* seeded C02-o: the two early exits folded, the "finished" store lost
        ELSE [i |-> [i EXCEPT !.hitDone = TRUE], doc |-> d]
 
 NextDocNum(i, a) ==
